@@ -455,3 +455,100 @@ Qed.
 
 Lemma set_limit_inv a m : ArenaInv a -> ArenaInv (set_limit a m).
 Proof. intros H. exact H. Qed.
+
+(* ---------- raising the limit makes a refused store possible ---------- *)
+
+Lemma grow_ok_when_room place a s :
+  s <> [] -> 0 < bucket_cap a -> usage a + slen s <= limit a ->
+  exists a' r, grow place true a s = (a', Ok r).
+Proof.
+  intros Hs Hbc Hroom. pose proof (slen_pos s Hs) as Hlen. unfold grow.
+  destruct (2 * bucket_cap a <? slen s) eqn:E1.
+  - replace (limit a <? usage a + slen s) with false by (symmetry; apply N.ltb_ge; lia).
+    destruct (push_slice _ s) as [b r]. eauto.
+  - destruct (limit a <? usage a + 2 * bucket_cap a) eqn:E2.
+    + cbn [andb]. apply N.ltb_lt in E2.
+      replace (limit a - usage a <? slen s) with false by (symmetry; apply N.ltb_ge; lia).
+      replace (limit a <? usage a + (limit a - usage a)) with false by (symmetry; apply N.ltb_ge; lia).
+      replace (limit a - usage a =? 0) with false by (symmetry; apply N.eqb_neq; lia).
+      destruct (push_slice _ s) as [b r]. eauto.
+    + destruct (push_slice _ s) as [b r]. eauto.
+Qed.
+
+Theorem vec_store_raise a s a' e m :
+  ArenaInv a -> vec_store a s = (a', Err e) -> usage a + slen s <= m ->
+  exists a'' r, vec_store (set_limit a m) s = (a'', Ok r).
+Proof.
+  intros Hinv Hst Hm. unfold vec_store, vec_store_gen in *.
+  destruct s as [|c s0]; [inversion Hst|]. set (s := c :: s0) in *.
+  assert (Hs : s <> []) by discriminate.
+  assert (Hbc : 0 < bucket_cap a) by (destruct Hinv as (_ & _ & _ & _ & _ & H); exact H).
+  cbn [blocks set_limit] in *.
+  destruct (last_opt (blocks a)) as [b|].
+  - destruct (slen s <=? bcap b - bused b).
+    + destruct (push_slice b s). inversion Hst.
+    + apply grow_ok_when_room; auto.
+  - apply grow_ok_when_room; auto.
+Qed.
+
+Theorem lf_store_raise a s a' e m :
+  ArenaInv a -> lf_store a s = (a', Err e) -> usage a + slen s <= m ->
+  exists a'' r, lf_store (set_limit a m) s = (a'', Ok r).
+Proof.
+  intros Hinv Hst Hm. unfold lf_store, lf_store_gen in *.
+  destruct s as [|c s0]; [inversion Hst|]. set (s := c :: s0) in *.
+  assert (Hs : s <> []) by discriminate.
+  assert (Hbc : 0 < bucket_cap a) by (destruct Hinv as (_ & _ & _ & _ & _ & H); exact H).
+  cbn [blocks set_limit] in *.
+  destruct (lf_first_fit (blocks a) s) as [[bs r]|].
+  - inversion Hst.
+  - apply grow_ok_when_room; auto.
+Qed.
+
+(* ---------- arena histories: any sequence of stores, limit changes and clears ---------- *)
+
+Inductive aop := AStore (s : str) | ASetLimit (m : N) | AClear.
+
+Section History.
+  Variable store : arena -> str -> arena * res sref.
+  Hypothesis store_ok : forall a s a' R, ArenaInv a -> store a s = (a', R) -> store_post a a' s R.
+
+  Definition astep (a : arena) (o : aop) : arena :=
+    match o with
+    | AStore s => fst (store a s)
+    | ASetLimit m => set_limit a m
+    | AClear => arena_clear a
+    end.
+
+  Lemma astep_inv a o : ArenaInv a -> ArenaInv (astep a o).
+  Proof.
+    intros H. destruct o as [s|m|]; simpl.
+    - destruct (store a s) as [a' R] eqn:E. simpl. exact (sp_inv _ _ _ _ (store_ok _ _ _ _ H E)).
+    - exact H.
+    - now apply arena_clear_inv.
+  Qed.
+
+  (* every reachable arena satisfies the invariant: no block over-filled, usage exact *)
+  Theorem history_inv ops a : ArenaInv a -> ArenaInv (fold_left astep ops a).
+  Proof. revert a; induction ops as [|o ops IH]; simpl; intros a H; auto. apply IH, astep_inv, H. Qed.
+
+  Definition no_set_limit (o : aop) : Prop := match o with ASetLimit _ => False | _ => True end.
+
+  (* while the limit is not changed, usage never exceeds max(limit, usage at the start) *)
+  Theorem history_cap ops a :
+    ArenaInv a -> Forall no_set_limit ops ->
+    let a' := fold_left astep ops a in
+    limit a' = limit a /\ usage a' <= N.max (usage a) (limit a).
+  Proof.
+    revert a; induction ops as [|o ops IH]; simpl; intros a H Hn; [split; [reflexivity|lia]|].
+    inversion Hn; subst. destruct (IH (astep a o) (astep_inv a o H) H3) as (Hl & Hu).
+    assert (Hstep : limit (astep a o) = limit a /\ usage (astep a o) <= N.max (usage a) (limit a)).
+    { destruct o as [s|m|]; simpl in *.
+      - destruct (store a s) as [a1 R] eqn:E. simpl.
+        pose proof (store_ok _ _ _ _ H E) as P. split; [exact (sp_limit _ _ _ _ P)|].
+        exact (proj2 (sp_usage _ _ _ _ P)).
+      - contradiction.
+      - split; [reflexivity|lia]. }
+    destruct Hstep as (Hl1 & Hu1). split; [congruence|]. rewrite Hl1 in Hu. lia.
+  Qed.
+End History.
